@@ -43,7 +43,10 @@ def main():
             return rc == 0
 
         def rundemo(tag):
-            rc, out = sh('g++ -std=c++20 -I%s/src %s %s/_b/libphosg.a -lpthread -lz -o %s/_demo && %s/_demo' % (wt, demo, wt, wt, wt), timeout=600)
+            os.makedirs(wt + '/_inc', exist_ok=True)
+            if not os.path.exists(wt + '/_inc/phosg'):
+                os.symlink(wt + '/src', wt + '/_inc/phosg')     # demos may #include <phosg/X.hh>
+            rc, out = sh('g++ -std=c++20 -I%s/src -I%s/_inc %s %s/_b/libphosg.a -lpthread -lz -o %s/_demo && %s/_demo' % (wt, wt, demo, wt, wt, wt), timeout=600)
             meta['ran'].append({'cmd': 'demo (%s)' % tag, 'rc': rc, 'out': out[-400:]})
             return rc
         if not build('pristine'):
